@@ -312,6 +312,27 @@ def success_return_sites(prov, fn):
     return out
 
 
+def successes_outside(prov, fn, holds, only=None):
+    """blocks where `fn` produces a possibly successful result although `holds(dominating conditions)` is false there
+    (`only(block)` restricts to one arm of a dispatching `match`): the literal reading of "X succeeds only when G" """
+    out = []
+    n = 0
+    for site, val in success_return_sites(prov, fn):
+        if only is not None and not only(site[0]):
+            continue
+        n += 1
+        if not holds(dominating_conditions(prov, fn, site[0])):
+            out.append(site[0])
+    # (no success site at all in the inspected part is reported as block -1: the obligation must not hold vacuously)
+    return sorted(set(out)) if n else [-1]
+
+
+def succeeded(conds, callee_key):
+    """the conditions include the success edge of a call to `callee_key` (`f(..)?` continued, or `Ok(_) = f(..)` matched)"""
+    return any(c[0] == "variant_in" and c[2] in (("Continue",), ("Ok",)) and peel(c[1])[0] == "call" and peel(c[1])[1] == callee_key
+               for e, c in conds)
+
+
 def guards(prov, fn):
     """every two-way decision of `fn` in one normal form, whatever its syntax (`if a == b`, `match a { K => .. , _ => .. }`,
     `if !p(x)`): [(block, pred, args, edge on which pred(args) holds, edge on which it does not)]
